@@ -4,18 +4,26 @@ HERE = os.path.dirname(os.path.dirname(os.path.abspath(__file__)))
 sys.path.insert(0, os.path.join(HERE, "harness"))
 sys.path.insert(0, os.environ.get("ASYNQ_SRC", "/repo"))   # a directory with the .py sources of asynq (beware of stale .so files in /repo: use a copy of the .py/.pxd files)
 from checks import ctxhist
+FEATS={}
 def drive(cases):
     lines=[]
     for i,c in enumerate(cases):
         c=dict(c); c["id"]=i
         r=ctxhist.run(c)
         lines+=r["lines"]
+        for f in r["features"]:
+            FEATS[f]=FEATS.get(f,0)+1
     out=subprocess.run([os.path.join(HERE, "lean/.lake/build/bin/driver")],input="\n".join(lines)+"\n",capture_output=True,text=True)
     return out.stdout.splitlines(), lines
 def wild(seed, n):
     rng=random.Random(seed)
     cases=[]
+    leavers=[c for c in ctxhist.HOOK_CONFIGS if any(a[0]=="exit" for h in ctxhist.HOOK_CONFIGS[c][1] for a in h[0])]
     for _ in range(n):
+        if rng.random()<0.35:
+            ctxs,hooks=ctxhist.HOOK_CONFIGS[rng.choice(leavers)]
+            cases.append(ctxhist.mk_hooks(ctxs,hooks,ctxhist.random_hook_history(rng,ctxs,hooks,rng.randint(3,14),rng.choice([1.0,0.9,0.75]),members_too=True,prefix=ctxhist.leave_prefix(rng,hooks)),"wild-aimed"))
+            continue
         ctxs=ctxhist.random_ctxs(rng)
         hooks=ctxhist.random_hooks(rng, ctxs)
         tg=set(a[1] for h in hooks for a in h[0]+h[1])
@@ -24,11 +32,22 @@ def wild(seed, n):
             if h!=ctxhist.NOH and leaves and rng.random()<0.7:
                 h[0]=list(h[0])+[["exit", rng.choice(leaves)]]
                 rng.shuffle(h[0])
-        cases.append(ctxhist.mk_hooks(ctxs,hooks,ctxhist.random_hook_history(rng,ctxs,hooks,rng.randint(3,18),rng.choice([1.0,0.9,0.7])),"wild"))
+        cases.append(ctxhist.mk_hooks(ctxs,hooks,ctxhist.random_hook_history(rng,ctxs,hooks,rng.randint(3,18),rng.choice([1.0,0.9,0.7]),members_too=True,prefix=ctxhist.leave_prefix(rng,hooks) if rng.random()<0.7 else ()),"wild"))
     res,lines=drive(cases)
     bad=[r for r in res if "CORR=ok" not in r or r.split("SPEC=")[1].split()[0]!=r.split("SPECM=")[1].split()[0]]
-    crash=[r for r in res if "SPEC=fail" in r]
-    print(n,"wild cases",len(bad),"bad",len(crash),"spec failures (crashes)")
+    crash=[r for r in res if "SPEC=fail" in r or "SPECM=fail" in r]
+    hits=0; inside=False; hit=False
+    for ln in lines:
+        if ln.startswith("(case"): hit=False
+        elif ln.startswith("(obs (continue)") or ln.startswith("(obs (revisit)"):
+            calls=ln.split("(calls")[1].split("(exc")[0]
+            if "(P " in calls and "(R " in calls and calls.index("(R ")<calls.index("(P ") and ln.startswith("(obs (continue)"): hit=True
+            if ln.startswith("(obs (revisit)") and "(R " in calls and "(P " in calls: pass
+        elif ln.startswith("(end)"): hits+=hit
+    print(n,"wild cases",len(bad),"CORR differences or SPEC/SPECM disagreements",len(crash),"SPEC or SPECM failures",hits,"cases with a context left INSIDE the resume loop of a continuation")
+    for c in crash[:5]:
+        print(c); print(json.dumps(cases[int(c.split()[1])]))
+    print({k:v for k,v in FEATS.items() if "resume" in k or "revisit" in k or "hook-actions" in k})
     for b in bad[:5]:
         print(b); print(json.dumps(cases[int(b.split()[1])]))
 
@@ -46,6 +65,7 @@ if __name__=="__main__":
     res,lines=drive(cases)
     bad=[r for r in res if "CORR=ok SPEC=ok SPECM=ok" not in r]
     print(len(cases),"cases",len(res),"results",len(bad),"bad")
+    print({k:v for k,v in FEATS.items() if "resume" in k or "revisit" in k or "hook-actions" in k})
     for b in bad[:8]:
         print(b)
         i=int(b.split()[1]); print(json.dumps(cases[i]))
